@@ -143,6 +143,14 @@ def text_forms(ctx, v, w, p):
     ctx.add('concat %s %s' % (e, gen.hexarg(tw)), meta=('concat', v, fw))
     ctx.add('concat %s %s' % (gen.hexarg(tv), we), meta=('concat', fv, w))
     ctx.count('concat_with_a_json_text_argument')
+    # the other two binary editors in the mixed forms (one document text, the other JSONB), against the tree oracle
+    pos = r.randrange(-3, 4)
+    for x, y, mx, my in ((gen.hexarg(tv), we, fv, w), (e, gen.hexarg(tw), v, fw), (gen.hexarg(tv), gen.hexarg(tw), fv, fw)):
+        ctx.add('array_insert %s %d %s' % (x, pos, y), meta=('ains', mx, pos, my))
+        if mx[0] == 'o':
+            k = r.choice([kk for kk, _ in mx[1]] + [b'new']) if mx[1] else b'new'
+            for upd in (0, 1):
+                ctx.add('object_insert %s %s %s %d' % (x, gen.hexarg(k), y, upd), meta=('oins', mx, k, my, upd))
 
 
 def text_stream(ctx):
@@ -154,6 +162,14 @@ def text_stream(ctx):
     large = [('o', [(b'a', u(10)), (b'b', u(20)), (b'c', u(30))]), ('o', [(b'', u(5)), (b'a', ('a', [u(1)])), (b'b', ('o', [])), (b'y', u(8)), (b'z', u(9))]),
              ('o', [(('k%02d' % i).encode(), u(i)) for i in range(12)] + [(b'z', u(99))])]
     other = [('a', [u(1), ('o', [(b'b', u(2))])]), ('a', []), u(7), ('s', b'x'), ('n',)]
+    # strip_nulls on a DEEP document given as text (null-valued members at every level, 100 .. 260 levels): the tree walk of the
+    # text branch must strip at every depth, as the byte walker does
+    for d in (100, 127, 128, 129, 130, 200, 260):
+        v = ('o', [(b'n', ('n',)), (b'v', u(1))])
+        for i in range(d):
+            v = ('o', [(b'k', v), (b'n', ('n',))]) if i % 2 else ('a', [v, ('n',)])
+        ctx.add('strip_nulls %s' % gen.hexarg(gen.json_text(v)), meta=('strip', v))
+        ctx.add('strip_nulls %s' % gen.hexarg(gen.enc(v)), meta=('strip', v))
     for a in small + large:
         for b in small + large + other:
             for x, y in ((a, b), (b, a)):
